@@ -1,10 +1,11 @@
 """C06 — FITS serialisation round-trips every table exactly, in the documented layout.
 Proof: PsV/Props/C06.lean (C06_roundtrip, strides_reconstructed, legacy_order_key, missing_extents_defaults,
-       be_bits_roundtrip, decode_encode).
+       be_bits_roundtrip, decode_encode, aux_values_gain_blanks_only — aux values with apostrophes included).
 Tie (exact): (a) bytes of real write_fits / write_fits_mem → Lean decodeFits = writeCore t, and encodeFits (writeCore t) is
 byte-identical to the real file; (b) Lean-encoded files (current layout and legacy variants) → real read_fits and
 read_fits_mem = model readCore; (c) real write → real read: operator==, field-by-field bits, identical evaluation — the
-property's own oracle, computed here without the model; (d) shipped test_data/*.fits: real readers = readCore (decodeFits
+property's own oracle, computed here without the model (aux values: 14 classes with apostrophes, see harness/fits_common.h
+gen_value_q; read back = written + blanks only); (d) shipped test_data/*.fits: real readers = readCore (decodeFits
 bytes), digests committed in bin/props/C06_digests.json."""
 import glob, hashlib, json, os
 from . import fitscommon as F
@@ -79,7 +80,8 @@ def run(ctx, n_override=None):
                 flags = dict(x.split("=") for x in head.split()[2:])
                 # (c) the property, directly on the implementation
                 exp = "ok " + F.dump_table(F.expected_after_roundtrip(cur))
-                rep = {"table": cur_line[:4000], "impl": i[:4000], "expected": exp[:4000], "replay_cmd": replay_cmd, "line": k + 1}
+                rep = {"table": cur_line[:4000], "impl": i[:4000], "expected": exp[:4000], "replay_cmd": replay_cmd, "line": k + 1,
+                       "aux_written": cur["aux"], "aux_read": aux_of(rb)}
                 if flags.get("built") != "1": broken("harness could not build the table it generated", line=k + 1)
                 elif flags.get("werr") != "-": ctx.report("write-fails", rep, "write_fits%s failed on a well-formed table" % ("" if flags["backend"] == "disk" else "_mem"))
                 elif rb != exp:
@@ -107,7 +109,7 @@ def run(ctx, n_override=None):
                 if idump != exp and padding_only(idump, exp, cur):
                     broken("aux values of a Lean-encoded file read with the right text but another number of trailing blanks than the FITS rule gives", impl=aux_diff(idump, cur)[:600], line=k + 1)
                 elif idump != exp:
-                    ctx.report("independent-writer:" + first_diff(idump, exp), {"table": cur_line[:4000], "variant": c, "impl": idump[:4000], "expected": exp[:4000], "replay_cmd": replay_cmd},
+                    ctx.report("independent-writer:" + first_diff(idump, exp), {"table": cur_line[:4000], "variant": c, "impl": idump[:4000], "expected": exp[:4000], "replay_cmd": replay_cmd, "aux_written": cur["aux"], "aux_read": aux_of(idump)},
                                "a file in the documented layout (single ORDER key: %s, EXTENTS: %s, PERIODn: %s) written by an independent encoder is not read as the table it describes: %s" % (single, not vm & 1, not vm & 2, first_diff(idump, exp) + aux_diff(idump, cur)))
             elif w[0] == "F":
                 evals += 1
@@ -132,12 +134,16 @@ def run(ctx, n_override=None):
     ctx.coverage["evaluations"] = evals
     ctx.coverage["distinct_nontrivial"] = len(seen)
     ctx.coverage["rule"] = ("tables drawn from VERIF_SEED by harness/fits_common.h (1..9 dims, unequal axis lengths, orders 0..5, extreme coefficient bit patterns, "
-                            "random/non-default extents, 0..40 aux keys, disk/memory alternating); a table counts as distinct non-trivial when real write → real read "
+                            "random/non-default extents, 0..41 aux keys, disk/memory alternating; aux values: plain printable text and — 2 in 5, plus one forced value per table for "
+                            "the first 28 tables and every third one after — 14 classes with apostrophes: single inside, leading, trailing, both, adjacent runs inside / at the "
+                            "start / at the end, apostrophes only (1..34), stored form at the card limit (length + apostrophes = 66..68), dense mix, around the padding-to-8 "
+                            "boundary, next to blank or slash, followed by trailing blanks, ending in '&'; one table in three also gets a key next to a reserved or FITS-semantic name (TYP, ORDE0, MYORDER, EXTNAM, ENDX, HISTOR, ...); counts in input_distribution.aux_values); a table counts as distinct non-trivial when real write → real read "
                             "reproduced every field, compared equal and evaluated identically; each table additionally yields 1 byte-identity check and 4 or 8 Lean-encoded variants")
     ctx.coverage["input_distribution"] = stats_all
     ctx.assumptions += [
         "cfitsio 4.2 is modelled at its API (abstract store), validated each run by byte-identity of encodeFits (writeCore t) with the real file and by the real readers on Lean-encoded files",
-        "aux keys: standard 1..8 character keywords [A-Z0-9] accepted by write_key, not one of the FITS-semantic names (END, HISTORY, CONTINUE, EXTNAME, HDUNAME, BSCALE, BZERO, BLANK, ...); values printable ASCII without apostrophes, at most 68 characters (quotes: C16)",
+        "aux keys: standard 1..8 character keywords [A-Z0-9] accepted by write_key, not one of the FITS-semantic names (END, HISTORY, CONTINUE, EXTNAME, HDUNAME, BSCALE, BZERO, BLANK, ...); values printable ASCII, apostrophes included, as write_key accepts them for a standard keyword (length + number of apostrophes <= 68); long (HIERARCH) keys: C16",
+        "an aux value read back may differ from the value written by trailing blanks only; the number of blanks is checked against the FITS rule (stored form, apostrophes doubled, padded to 8 characters) — a disagreement with that rule alone is reported as a broken tie, not as a property violation",
         "PERIODn values are not part of the property (15-digit decimal text); generated periods are multiples of 0.25 so that they round-trip",
         "array sizes below 2^63 (no wrap-around in the stride products)",
     ]
@@ -170,6 +176,11 @@ def padding_only(got, exp, written):
         return all(tg[k] == te[k] for k in tg if k != "aux") and F.aux_only_blanks_gained(tg["aux"], written["aux"])
     except Exception:
         return False
+
+
+def aux_of(dump):
+    try: return F.parse_table(dump.split()[1:])["aux"] if dump.split()[0] == "ok" else None
+    except Exception: return None
 
 
 def aux_diff(got, written):
